@@ -3,3 +3,11 @@ import FinProtoc.Dsl.Token
 import FinProtoc.Dsl.Lexer
 import FinProtoc.Dsl.Cst
 import FinProtoc.Dsl.Parser
+import FinProtoc.Bytes
+import FinProtoc.Spec
+import FinProtoc.SpecOf
+import FinProtoc.IR
+import FinProtoc.Conforms
+import FinProtoc.Explain
+import FinProtoc.Load
+import FinProtoc.Sample
